@@ -82,6 +82,7 @@ impl Buf {
 //@contract
   requires old(self).inv(),
   ensures *final(self) == *old(self), !old(self).null_arena ==> r.off@ == old(self).off() && !r.dangling@, // [C14]
+    old(self).null_arena ==> r.dangling@,
 //@@end
 //@@fn file=bytes.rs scope="impl<A: Allocator> BytesMut<A> {" name=as_ptr rename=as_ptr__own xlate=plain props=C14
 //@subst /\*const u8/ => PtrAt
@@ -94,5 +95,32 @@ impl Buf {
 //@contract
   requires self.inv(),
   ensures !self.null_arena ==> r.off@ == self.off() && !r.dangling@, // [C14]
+    self.null_arena ==> r.dangling@,
+//@@end
+
+//@@fn file=bytes.rs scope="impl<A: Allocator> ops::Deref for BytesRefMut<'_, A> {" name=deref xlate=plain props=C14
+//@subst /&Self::Target/ => &[u8]
+//@subst /return &\[\];/ => return empty_slice();
+//@subst /unsafe \{ self\.arena\.get_bytes\(/ => unsafe { self.arena_get_bytes(
+//@contract
+  requires self.inv(),
+  ensures
+    r@.len() == self.len, // [C14]
+    self.len > 0 ==> r@ == self.mem@.subrange(self.off(), self.off() + self.len as int), // [C14]
+//@@end
+//@@fn file=bytes.rs scope="impl<A: Allocator> ops::Deref for BytesMut<A> {" name=deref rename=deref__own xlate=plain props=C14
+//@subst /&Self::Target/ => &[u8]
+//@subst /match self\.arena \{/ => match self.arena_side() {
+//@subst /Either::Left\(ref arena\) =>/ => Side::Left =>
+//@subst /Either::Right\(_\) => &\[\],/ => Side::Right => empty_slice(),
+//@subst /unsafe \{ arena\.get_bytes\(/ => unsafe { self.arena_get_bytes(
+//@subst? /self\.offset\(\)/ => self.offset__own()
+//@subst? /self\.capacity\(\)/ => self.capacity__own()
+//@subst? /self\.buffer_offset\(\)/ => self.buffer_offset__own()
+//@contract
+  requires self.inv(), self.null_arena ==> self.cap() == 0,
+  ensures
+    r@.len() == self.len, // [C14]
+    self.len > 0 ==> r@ == self.mem@.subrange(self.off(), self.off() + self.len as int), // [C14]
 //@@end
 } // impl Buf (window)
